@@ -219,21 +219,179 @@ Proof.
   { apply get_at_ok. split; auto. unfold len in *. rewrite Lw. lia. }
   rewrite Hgw.
   rewrite (cgroup_eta cw _ _ Rw Qw). rewrite (cgive1_offset _ _ _ _ Hc1). cbn [bind].
-  f_equal. apply nth_error_ext. intros n.
+  f_equal. apply nth_error_ext. intros k.
   rewrite nth_error_set_at.
   assert (HltW : ai_group F < len csw) by (unfold len in *; rewrite Lw; lia).
   destruct (N.ltb_spec (ai_group F) (len csw)); [|lia]. simpl.
-  destruct (Nat.eqb_spec (nat_of (ai_group F)) n) as [E|E].
-  - subst n. destruct (H2 (nat_of (ai_group F)) c1) as (c2 & P2 & Q2 & R2).
+  destruct (Nat.eqb_spec (nat_of (ai_group F)) k) as [E|E].
+  - subst k. destruct (H2 (nat_of (ai_group F)) c1) as (c2 & P2 & Q2 & R2).
     { rewrite nth_error_set_at. destruct (N.ltb_spec (ai_group F) (len cs)); [|lia]. rewrite Nat.eqb_refl. auto. }
     rewrite P2. f_equal. symmetry. apply cgroup_eta; auto.
-  - destruct (nth_error cs n) as [cn|] eqn:En.
+  - destruct (nth_error cs k) as [cn|] eqn:En.
     + destruct (Hw2 _ _ En) as (cwn & Pn & Qn & Rn).
-      destruct (H2 n cn) as (c2 & P2 & Q2 & R2).
-      { rewrite nth_error_set_at. destruct (Nat.eqb_spec (nat_of (ai_group F)) n); [congruence|]. rewrite andb_false_r. auto. }
+      destruct (H2 k cn) as (c2 & P2 & Q2 & R2).
+      { rewrite nth_error_set_at. destruct (Nat.eqb_spec (nat_of (ai_group F)) k); [congruence|]. rewrite andb_false_r. auto. }
       rewrite Pn, P2. f_equal. rewrite (cgroup_eta cwn _ _ Rn Qn). symmetry. apply cgroup_eta; congruence.
-    + assert (nth_error csw n = None) by (apply nth_error_None; apply nth_error_None in En; lia).
-      assert (nth_error cs2 n = None).
+    + assert (nth_error csw k = None) by (apply nth_error_None; apply nth_error_None in En; lia).
+      assert (nth_error cs2 k = None).
       { apply nth_error_None. apply nth_error_None in En. rewrite L2, set_at_length. lia. }
       congruence.
+Qed.
+
+(* ---------- ConciseResourceState::add: the single-group branch is the loop ---------- *)
+Lemma add_loop_single_wholes ws : forall c,
+  Forall whole ws -> Forall (fun ix => ai_group ix = 0) ws ->
+  add_loop_groups [c] ws = Ok [mkCgroup (c_units c + len ws) (c_fr c)].
+Proof.
+  induction ws as [|ix ws IH]; intros c Hw Hg; simpl.
+  - unfold len; simpl. rewrite N.add_0_r. destruct c; auto.
+  - inversion Hw as [|? ? Hx Hw']; subst. inversion Hg as [|? ? Hg0 Hg']; subst.
+    unfold whole in Hx. rewrite Hx, N.eqb_refl, Hg0. rewrite get_at_single. cbn [bind].
+    change (set_at [c] 0 (mkCgroup (c_units c + 1) (c_fr c))) with [mkCgroup (c_units c + 1) (c_fr c)].
+    rewrite IH by auto. simpl. f_equal. f_equal. f_equal. unfold len. simpl length. lia.
+Qed.
+
+Lemma bind_ok_id {A} (r : res A) : bind r (fun x => Ok x) = r.
+Proof. destruct r; auto. Qed.
+
+Lemma cs_add_single_eq cg ra :
+  shape_ok (ra_indices ra) = true -> ra_total ra = ra_amount ra ->
+  Forall (fun ix => ai_group ix = 0) (ra_indices ra) ->
+  cs_add [cg] ra = add_loop_groups [cg] (ra_indices ra).
+Proof.
+  intros Hshape Htot Hg0.
+  destruct (shape_split _ Hshape) as (ws & fs & E & Hw & Hf).
+  unfold ra_total in Htot. rewrite ra_total_sum, E, map_app, sumN_app, (sum_whole _ Hw) in Htot.
+  rewrite E in Hg0. apply Forall_app in Hg0. destruct Hg0 as [Hg1 Hg2].
+  unfold cs_add. rewrite <- Htot, E. destruct Hf as [->|(F & -> & HFz & HFl)].
+  - cbn [map] in *. rewrite sumN_nil. rewrite split_mk by apply FPU_pos. rewrite app_nil_r.
+    destruct (N.ltb_spec 0 0); [lia|]. rewrite add_loop_single_wholes; auto.
+  - cbn [map] in *. rewrite sumN_cons, sumN_nil.
+    assert (HhF : held_ix F = ai_frac F) by (unfold held_ix; destruct (N.eqb_spec (ai_frac F) 0); congruence).
+    rewrite HhF, N.add_0_r. rewrite split_mk by auto.
+    destruct (N.ltb_spec 0 (ai_frac F)); [|lia].
+    destruct (ws ++ [F]) eqn:EE; [destruct ws; discriminate|]. rewrite <- EE. clear EE.
+    rewrite rev_app_distr. simpl rev. simpl app. cbn [fr_loop_single].
+    destruct (N.eqb_spec (ai_frac F) 0); [congruence|].
+    rewrite add_loop_app, add_loop_single_wholes by auto.
+    inversion Hg2 as [|? ? HgF _]; subst. simpl add_loop_groups.
+    destruct (N.eqb_spec (ai_frac F) 0); [congruence|]. rewrite HgF.
+    destruct (add_fractions [mkCgroup (c_units cg + len ws) (c_fr cg)] 0 (ai_index F) (ai_frac F)); cbn [bind]; auto.
+    apply fr_loop_single_whole. apply Forall_rev; auto.
+Qed.
+
+(** ConciseResourceState::add mirrors ResourcePool::release_allocation (index / group pools) *)
+Lemma cs_add_mirror us gs cs Hb ra gs' :
+  gs_mirror gs cs -> shape_ok (ra_indices ra) = true -> ra_total ra = ra_amount ra ->
+  Forall (fun ix => ai_frac ix < FPU /\ ai_group ix < len gs) (ra_indices ra) ->
+  GsI us gs (hsum (Hb ++ ra_indices ra)) (hfany (Hb ++ ra_indices ra)) ->
+  release_indices_groups gs (rev (ra_indices ra)) = Ok gs' ->
+  exists cs', cs_add cs ra = Ok cs' /\ gs_mirror gs' cs'.
+Proof.
+  intros Hm Hshape Htot Hb0 HG Hr.
+  assert (Hloop : exists cs', add_loop_groups cs (ra_indices ra) = Ok cs' /\ gs_mirror gs' cs').
+  { destruct (shape_split _ Hshape) as (ws & fs & E & Hw & Hf).
+    rewrite E in *. apply Forall_app in Hb0. destruct Hb0 as [Hbw Hbf].
+    assert (Hbw' : Forall (fun ix => ai_group ix < len gs) ws).
+    { rewrite Forall_forall in *. intros y Hy. apply Hbw; auto. }
+    destruct Hf as [->|(F & -> & HFz & HFl)].
+    - rewrite app_nil_r in *. eapply release_mirror_wholes; eauto.
+    - rewrite rev_app_distr in Hr. simpl rev in Hr. simpl app in Hr.
+      inversion Hbf as [|? ? [_ HgF] _]; subst.
+      destruct HG as [Lg HG].
+      assert (Hu : exists u, nth_error us (nat_of (ai_group F)) = Some u).
+      { destruct (nth_error us (nat_of (ai_group F))) eqn:E1; eauto.
+        apply nth_error_None in E1. unfold len, nat_of in *. lia. }
+      destruct Hu as [u Hu].
+      eapply (release_mirror_frac gs cs ws F gs' u (hsum (Hb ++ ws) (ai_group F)) (hfany (Hb ++ ws) (ai_group F))); eauto.
+      intros g Hg. eapply GI_ext; [| |eapply HG; eauto]; intros i; unfold add_h, add_hf;
+        rewrite ?app_assoc, ?hsum_app, ?hfany_app; unfold hsum, hfany; cbn [map existsb]; rewrite ?sumN_cons, ?sumN_nil, N.eqb_refl; simpl.
+      + destruct (N.eqb_spec i (ai_index F)); destruct (N.eqb_spec (ai_index F) i); try congruence; lia.
+      + destruct (N.eqb_spec i (ai_index F)); destruct (N.eqb_spec (ai_index F) i); try congruence; simpl; rewrite ?orb_false_r; auto. }
+  destruct Hloop as (cs' & A & B). exists cs'. split; auto.
+  destruct cs as [|cg [|c2 cs2]]; try exact A.
+  rewrite cs_add_single_eq; auto.
+  assert (len gs = 1) by (rewrite (Forall2_len _ _ _ Hm); reflexivity).
+  rewrite Forall_forall in *. intros y Hy. destruct (Hb0 y Hy). lia.
+Qed.
+
+(** ... and for a sum resource *)
+Lemma cs_add_sum free c ra :
+  sum_mirror free c -> ra_indices ra = [] ->
+  exists c', cs_add c ra = Ok c' /\ sum_mirror (free + ra_amount ra) c'.
+Proof.
+  intros (cg & -> & Hsum & Hlt & Hoth) Hnil. unfold cs_add. rewrite Hnil.
+  unfold split. set (a := ra_amount ra) in *.
+  destruct (N.ltb_spec 0 (a mod FPU)) as [Hpos|Hz].
+  - unfold add_fractions. rewrite get_at_single. cbn [bind c_units c_fr]. cbv zeta.
+    destruct (N.leb_spec FPU (fget0 (c_fr cg) 0 + a mod FPU)) as [Hb|Hb].
+    + destruct (N.leb_spec FPU (fget0 (c_fr cg) 0 + a mod FPU - FPU)); [unfold FPU, FRACTIONS_PER_UNIT in *; lia|].
+      eexists; split; [reflexivity|]. eexists; split; [reflexivity|]. cbn [c_units c_fr].
+      rewrite fget0_fset, N.eqb_refl. repeat split.
+      * unfold FPU, FRACTIONS_PER_UNIT in *; lia.
+      * unfold FPU, FRACTIONS_PER_UNIT in *; lia.
+      * intros i Hi. rewrite fget0_fset. destruct (N.eqb_spec 0 i); [congruence|auto].
+    + eexists; split; [reflexivity|]. eexists; split; [reflexivity|]. cbn [c_units c_fr].
+      rewrite fget0_fset, N.eqb_refl. repeat split.
+      * unfold FPU, FRACTIONS_PER_UNIT in *; lia.
+      * unfold FPU, FRACTIONS_PER_UNIT in *; lia.
+      * intros i Hi. rewrite fget0_fset. destruct (N.eqb_spec 0 i); [congruence|auto].
+  - eexists; split; [reflexivity|]. eexists; split; [reflexivity|]. cbn [c_units c_fr]. repeat split; auto.
+    unfold FPU, FRACTIONS_PER_UNIT in *; lia.
+Qed.
+
+(* ------------------------------------------------------------------------------------------ *)
+(** * per-pool: release with the mirror *)
+
+Lemma GsI_wf us gs h hf : GsI us gs h hf -> gs_wf gs.
+Proof.
+  intros [L H]. apply Forall_forall. intros g Hin. apply In_nth_error in Hin. destruct Hin as [n Hn].
+  assert (Hlt : (n < length gs)%nat) by (eapply nth_error_some_lt; eauto).
+  destruct (nth_error us n) as [u|] eqn:Eu; [|apply nth_error_None in Eu; lia].
+  specialize (H (N.of_nat n) u g). rewrite nat_of_of_nat in H. destruct H as [Hwf _]; auto. unfold len. lia.
+Qed.
+
+Definition ra_wf (p : pool) (ra : ralloc) : Prop :=
+  match p with PSum _ _ => True | _ => shape_ok (ra_indices ra) = true /\ ra_total ra = ra_amount ra end.
+
+Lemma release_PoolInv p0 p c H' taken ra p' :
+  PoolInv p0 p c (H' ++ ra_indices ra) (taken + (if pool_is_sum p then ra_amount ra else 0)) ->
+  ra_wf p ra -> pool_release p ra = Ok p' ->
+  exists c', cs_add c ra = Ok c' /\ PoolInv p0 p' c' H' taken.
+Proof.
+  intros HI Hwf Hr. pose proof (release_PoolCore _ _ _ _ _ _ (PoolInv_core _ _ _ _ _ HI) Hr) as HC.
+  destruct HI as (K & F & C). destruct HC as (K' & F' & C').
+  destruct p as [|f g|f gs|f free]; simpl in Hr; try discriminate.
+  - destruct C as (HG & Hm & Hw & Hb). destruct Hwf as [Hshape Htot]. simpl pool_groups in *.
+    apply Forall_app in Hb. destruct Hb as [Hb1 Hb2].
+    assert (Hg0 : Forall (fun ix => ai_group ix = 0) (rev (ra_indices ra))).
+    { apply Forall_rev. rewrite Forall_forall in *. intros ix Hin. destruct (Hb2 ix Hin) as [_ X]. unfold len in X; simpl in X. lia. }
+    destruct (release_indices_single g (rev (ra_indices ra))) as [g'| |] eqn:Er; simpl in Hr; try discriminate.
+    inversion Hr; subst p'.
+    assert (Hrg : release_indices_groups [g] (rev (ra_indices ra)) = Ok [g']).
+    { rewrite release_single_groups by auto. rewrite Er. auto. }
+    destruct (cs_add_mirror _ _ _ _ _ _ Hm Hshape Htot Hb2 HG Hrg) as (c' & A & B).
+    exists c'. split; auto. split; auto. split; auto. simpl in C'. destruct C' as [G' B'].
+    split; auto. split; auto. split; auto. eapply GsI_wf; eauto.
+  - destruct C as (HG & Hm & Hw & Hb). destruct Hwf as [Hshape Htot]. simpl pool_groups in *.
+    apply Forall_app in Hb. destruct Hb as [Hb1 Hb2].
+    destruct (release_indices_groups gs (rev (ra_indices ra))) as [gs'| |] eqn:Er; simpl in Hr; try discriminate.
+    inversion Hr; subst p'.
+    destruct (cs_add_mirror _ _ _ _ _ _ Hm Hshape Htot Hb2 HG Er) as (c' & A & B).
+    exists c'. split; auto. split; auto. split; auto. simpl in C'. destruct C' as [G' B'].
+    split; auto. split; auto. split; auto. eapply GsI_wf; eauto.
+  - destruct C as (C1 & Hsm & C2). apply app_eq_nil in C2. destruct C2 as [C2 C3].
+    destruct (N.ltb_spec f (free + ra_amount ra)); try discriminate.
+    destruct (len (ra_indices ra) =? 0); simpl in Hr; try discriminate. inversion Hr; subst p'.
+    destruct (cs_add_sum _ _ _ Hsm C3) as (c' & A & B).
+    exists c'. split; auto. split; auto. split; auto. simpl in *. destruct C' as [G' B']. auto.
+Qed.
+
+Lemma PoolInv_perm p0 p c H H' taken : Permutation H H' -> PoolInv p0 p c H taken -> PoolInv p0 p c H' taken.
+Proof.
+  intros P (A & B & C). split; auto. split; auto. destruct p.
+  - destruct C as (C1 & C2 & C3 & C4). split; [eapply GsI_perm; eauto|]. split; [auto|]. split; [auto|]. eapply Permutation_Forall; eauto.
+  - destruct C as (C1 & C2 & C3 & C4). split; [eapply GsI_perm; eauto|]. split; [auto|]. split; [auto|]. eapply Permutation_Forall; eauto.
+  - destruct C as (C1 & C2 & C3 & C4). split; [eapply GsI_perm; eauto|]. split; [auto|]. split; [auto|]. eapply Permutation_Forall; eauto.
+  - destruct C as (C1 & C2 & C3). subst. apply Permutation_nil in P. subst. auto.
 Qed.
